@@ -51,10 +51,8 @@ void InvariantMixedDiscreteDistribution::updateDistribution()
   distribution_[invariant_] = p_;
   for (size_t i = 0; i < distNCat; i++)
   {
-    if (cats[i] == invariant_)
-      distribution_[invariant_] += (1. - p_) * probs[i];
-    else
-      distribution_[cats[i]] = (1. - p_) * probs[i];
+    // a nested value that the comparator does not distinguish from the invariant joins the invariant class
+    add(cats[i], (1. - p_) * probs[i]);
   }
 
   intMinMax_->setLowerBound(dist_->getLowerBound(), !dist_->strictLowerBound());
